@@ -10,21 +10,10 @@ Theorem C02_merge_algebra : forall a b, algebra (merge_v a b) a b (newest (push 
 Proof. exact merge_algebra. Qed.
 Print Assumptions C02_merge_algebra.
 
-(* PushRequest.CopyMerge: the same, except that the snapshot is other.Push unconditionally ... *)
-Theorem C02_copy_merge_algebra_partial : forall a b, algebra (copy_merge_v a b) a b (push b).
+(* PushRequest.CopyMerge: the same algebra (newerPushContext: other.Push if set, else pr.Push). *)
+Theorem C02_copy_merge_algebra : forall a b, algebra (copy_merge_v a b) a b (newest (push a) (push b)).
 Proof. exact copy_merge_algebra. Qed.
-Print Assumptions C02_copy_merge_algebra_partial.
-
-(* ... which is the newest snapshot whenever the later request carries one ... *)
-Theorem C02_copy_merge_newest_partial : forall a b,
-  push b <> None -> push (copy_merge_v a b) = newest (push a) (push b).
-Proof. exact copy_merge_newest. Qed.
-Print Assumptions C02_copy_merge_newest_partial.
-
-(* ... and is NOT in general (finding C02-copymerge-drops-snapshot; the witness is run against the real code). *)
-Theorem C02_copy_merge_newest_refuted : exists a b, push (copy_merge_v a b) <> newest (push a) (push b).
-Proof. exact copy_merge_newest_refuted. Qed.
-Print Assumptions C02_copy_merge_newest_refuted.
+Print Assumptions C02_copy_merge_algebra.
 
 (* PushQueue, every op sequence, every connection: what Dequeue handed out for c together with what is
    still parked for c carries exactly the keys / forced flag / reason counts of what Enqueue accepted for c. *)
@@ -37,18 +26,12 @@ Theorem C02_queue_no_loss : forall ops c,
 Proof. exact queue_no_loss. Qed.
 Print Assumptions C02_queue_no_loss.
 
-(* newest snapshot through the queue: true when every enqueued request carries a snapshot, false otherwise *)
-Theorem C02_queue_newest_partial : forall ops c,
-  (forall c' r, In (Enq c' r) ops -> push r <> None) ->
+(* ... and the newest snapshot accepted for c is the newest snapshot handed out / parked for c. *)
+Theorem C02_queue_newest : forall ops c,
   let l := qrun ops in
   lastpush (of_conn c (q_del l) ++ parked (q_st l) c) = lastpush (of_conn c (q_acc l)).
-Proof. exact queue_newest_partial. Qed.
-Print Assumptions C02_queue_newest_partial.
-
-Theorem C02_queue_newest_refuted : exists ops c, let l := qrun ops in
-  lastpush (of_conn c (q_del l) ++ parked (q_st l) c) <> lastpush (of_conn c (q_acc l)).
-Proof. exact queue_newest_refuted. Qed.
-Print Assumptions C02_queue_newest_refuted.
+Proof. exact queue_newest. Qed.
+Print Assumptions C02_queue_newest.
 
 (* One push in flight per connection: after any op sequence the queue invariant holds, hence what Dequeue
    returns is not in [processing] and carries a request. *)
